@@ -16,8 +16,10 @@ mkdir -p /tmp/mutenv
 if [ ! -d $D/repo ]; then
   git -C /repo worktree add --detach $D/repo HEAD >/dev/null 2>&1
 fi
+# always start from /repo's current HEAD (it moves when a fix: commit lands)
+git -C $D/repo checkout -- . && git -C $D/repo checkout -q --detach "$(git -C /repo rev-parse HEAD)"
 if [ "$PATCH" != "-" ]; then
-  git -C $D/repo checkout -- . && git -C $D/repo apply "$PATCH"
+  git -C $D/repo apply "$PATCH"
 fi
 mkdir -p $D/verif
 rsync -a --delete --exclude work --exclude .git --exclude 'lean/.lake' /verif/ $D/verif/
